@@ -720,7 +720,7 @@ def _discharge_assert(F, b, tb, i, t, msg, ops):
             tys[0] = tys[1]     # both operands of a checked +/- have one type
         a, c = ops
         if tys[0] == "usize":
-            if msg.startswith("Overflow(Add)") and _find_position(a) is not None and isinstance(c, tuple) and c[0] == "int" and 0 <= c[1] <= 4096:
+            if msg.startswith("Overflow(Add)") and _find_position(a) is not None and _small_const_len(c) is not None and 0 <= _small_const_len(c) <= 4096:
                 return "position returned by str::find (≤ len ≤ isize::MAX) plus a small constant"
             if msg.startswith("Overflow(Add)") and _is_index_like(b, tb, t["ops"][0], a) and _is_index_like(b, tb, t["ops"][1], c):
                 return "usize operands bounded by the length of a live allocation (≤ isize::MAX each)"
@@ -932,6 +932,17 @@ def _find_position(t):
     return None
 
 
+def _small_const_len(t):
+    """an integer constant, or the byte length of a constant str (`NEEDLE.len()`) -> int, else None"""
+    if isinstance(t, tuple) and t:
+        if t[0] == "int":
+            return t[1]
+        if t[0] == "call" and parse_callee(t[1])[2] == "len" and len(t[2]) == 1 and isinstance(t[2][0], tuple) and t[2][0] and t[2][0][0] == "str" \
+                and isinstance(t[2][0][1], str):
+            return len(t[2][0][1].encode("utf-8"))
+    return None
+
+
 def _after_needle(idx_term, cont_term):
     """`&hay[pos + K ..]` / `&hay[.. pos]` / `&hay[pos ..]` where pos = hay.find(NEEDLE) on the SAME hay: in bounds and on a char
     boundary iff K ≤ len(NEEDLE) bytes and NEEDLE[..K] ends on a char boundary (any K for an ASCII needle)"""
@@ -940,8 +951,8 @@ def _after_needle(idx_term, cont_term):
     for name, v in idx_term[3]:
         k = 0
         base = v
-        if isinstance(v, tuple) and v and v[0] == "bin" and v[1] == "Add" and isinstance(v[3], tuple) and v[3][0] == "int":
-            base, k = v[2], v[3][1]
+        if isinstance(v, tuple) and v and v[0] == "bin" and v[1] == "Add" and _small_const_len(v[3]) is not None:
+            base, k = v[2], _small_const_len(v[3])
         fp = _find_position(base)
         if fp is None:
             return None
@@ -958,7 +969,67 @@ def _after_needle(idx_term, cont_term):
     return "bounds are the position of a constant needle found in the same str, advanced by at most the needle's own length"
 
 
+def _range_locals(b, op):
+    """the named locals that are the start and end of the Range aggregate an operand holds"""
+    p = op_place(op)
+    if p is None or place_proj(p):
+        return None
+    l = p["l"]
+    for _ in range(6):
+        ds = b.defs().get(l, [])
+        if len(ds) != 1 or ds[0][0] != "assign":
+            return None
+        rv = ds[0][3]["rv"]
+        if rv["k"] == "agg" and rv["adt"].startswith("core::ops::range::Range") and len(rv["ops"]) == 2:
+            return named_root(b, rv["ops"][0]), named_root(b, rv["ops"][1]), ds[0][1]
+        if rv["k"] == "use":
+            q = op_place(rv["op"])
+            if q is None or place_proj(q):
+                return None
+            l = q["l"]
+            continue
+        return None
+    return None
+
+
+def _scan_range(b, tb, site_bb, range_op):
+    """`c[s..e]` in a scan `while s < len { let mut e = s; while e < len && .. { e += 1 } .. c[s..e] .. ; s = e }`:
+    both ends are counters that never exceed a length (constants, copies of such counters, +1 only under `self < len`), `e` is
+    initialised from `s` on every way to the slice and only grows, and `s` is not written between that initialisation and the
+    slice — so s ≤ e ≤ len. Anything else (`e + 1`, an unrelated start) is not recognised."""
+    rl = _range_locals(b, range_op)
+    if rl is None or rl[0] is None or rl[1] is None:
+        return None
+    s, e, _ = rl
+    if s == e or not counter_ok(b, tb, s) or not counter_ok(b, tb, e):
+        return None
+    inits = []
+    for d in b.defs().get(e, []):
+        if d[0] != "assign" or d[3]["rv"]["k"] != "use":
+            return None
+        op = d[3]["rv"]["op"]
+        if op_const(op) is not None:
+            return None             # a constant start of e says nothing about s ≤ e
+        if named_root(b, op) == s:
+            inits.append(d[1])
+    if len(inits) != 1 or not b.dominates(inits[0], site_bb):
+        return None
+    for d in b.defs().get(s, []):
+        if d[1] == inits[0]:
+            continue
+        # a write of s must not reach the slice without passing the (re-)initialisation of e
+        if d[0] == "assign" and op_const(d[3]["rv"].get("op", {})) is not None and b.dominates(d[1], inits[0]) and d[1] != site_bb:
+            continue
+        if site_bb in b.reach_from(d[1], removed_blocks=(inits[0],)):
+            return None
+    return "scan slice s..e: both ends are length-bounded counters, e starts at s on every way here and only grows"
+
+
 def _discharge_index(F, b, tb, i, t, cont, ity, idx):
+    if "Range<usize>" in ity and len(t["args"]) > 1:
+        why = _scan_range(b, tb, i, t["args"][1])
+        if why:
+            return why
     if cont.endswith("str") and "Range" in ity:
         why = _after_needle(idx, tb.operand(t["args"][0]))
         if why:
